@@ -133,33 +133,37 @@ def run(ctx, rep):
                       ins.where())
     # ------------------------------------------------------------ KEY-SHAPE
     r = rep.rule("C10-KEY-SHAPE", "Context::key compares rows on the input exactly when no selection exists "
-                 "(results.is_empty()), otherwise on the list of all selected values", floor=2,
-                 analysis="A5 partial evaluation with Vec::is_empty seeded")
+                 "(results is empty), otherwise on the list of all selected values", floor=3,
+                 analysis="A5 partial evaluation of Context::key with self.results seeded as a vector of 0, 1, 2 entries")
     kb = lib.body("processor::Context::key")
     if kb is None:
         r.missing("processor::Context::key")
         return
     ck = lib.adts.get("processor::ContextKey")
     vn = [v["name"] for v in ck["variants"]]
-    emp = [c for c in kb.calls if (c.name or "").endswith("Vec::<T, A>::is_empty")]
     cadt = lib.adts.get("processor::Context")
     fields = [f["name"] for f in cadt["variants"][0]["fields"]]
-    pr = Prov(kb, LOOK)
-    if len(emp) != 1 or not any(a[0] == "arg" and a[1] == 1 and a[2] and a[2][0] == "f%d" % fields.index("results")
-                                for a in pr.call_arg_origins(emp[0], 0)):
-        r.bad("Context::key#condition", "the choice between input and selected values is not made by "
-              "self.results.is_empty() alone", kb.where())
+    if "results" not in fields:
+        r.missing("Context.results")
         return
-    for flag, want in ((True, "Value"), (False, "Results")):
-        def model(c, av, env, pe, flag=flag):
-            if c.bb == emp[0].bb:
-                return (True, ("b", flag))
-            return None
-        res = PE(kb, model).run()
+    # the choice is evaluated for a Context whose `results` holds 0, 1 and 2 entries (everything else unknown):
+    # however the emptiness is tested (is_empty, len() == 0, a slice pattern), it is the only thing that decides
+    for n_sel, want in ((0, "Value"), (1, "Results"), (2, "Results")):
+        selfv = [None] * len(fields)
+        selfv[fields.index("results")] = ("arr", (None,) * n_sel)
+        key = "Context::key[%d selection(s)]" % n_sel
+        try:
+            res = PE(kb, None).run(env={1: ("rv", ("adt", 0, tuple(selfv)))})
+        except RuntimeError as e:
+            r.bad(key, "not evaluated: %s" % e, kb.where())
+            continue
         got = {v[1] if v is not None and v[0] == "adt" else None for _, v in res.returns}
-        key = "Context::key[is_empty=%s]" % str(flag).lower()
         if got == {vn.index(want)}:
             r.ok(key, "ContextKey::%s" % want, kb.where())
+        elif len(got) > 1 or None in got:
+            r.bad(key, "the choice between the input and the selected values is not decided by whether a selection "
+                  "exists (self.results empty or not): variants %s are reachable" % sorted(str(x) for x in got),
+                  kb.where())
         else:
             r.bad(key, "expected ContextKey::%s, returns variants %s" % (want, got), kb.where())
     # payloads
